@@ -167,9 +167,15 @@ func (s *Store) Delete(ctx context.Context, target ocispec.Descriptor) error {
 	defer s.sync.Unlock()
 
 	deleteQueue := []ocispec.Descriptor{target}
+	deleted := set.New[digest.Digest]()
 	for len(deleteQueue) > 0 {
 		head := deleteQueue[0]
 		deleteQueue = deleteQueue[1:]
+		if deleted.Contains(head.Digest) {
+			// a node can be queued twice, e.g. as a referrer and as a
+			// dangling successor of another deleted node
+			continue
+		}
 
 		// get referrers if applicable
 		if s.AutoGC && descriptor.IsManifest(head) {
@@ -190,6 +196,7 @@ func (s *Store) Delete(ctx context.Context, target ocispec.Descriptor) error {
 		if err != nil {
 			return err
 		}
+		deleted.Add(head.Digest)
 		if s.AutoGC {
 			for _, d := range danglings {
 				// do not delete existing tagged manifests
